@@ -173,6 +173,12 @@ AG = "seqm/seqm_functions/anal_grad.py"
 PARS = ("gss", "gpp", "gsp", "gp2", "hsp")
 
 
+def _instance(mod, cls_name, **attrs):
+    """an object of a repository class for the interpreter: the given attributes, methods / class constants resolved through the class"""
+    from .npsym import Instance
+    return Instance(mod, cls_name, **attrs)
+
+
 def _numeric(arr, rng, cache):
     """replace every symbol of an object array by a random rational (same symbol -> same number)"""
     import numpy as np
@@ -953,7 +959,7 @@ def check_parser(ctx, rid, aspects=("index", "pairs")):
                 I = NpSym(repo)
                 mol = types.SimpleNamespace(species=species, coordinates=coords.copy(), const=types.SimpleNamespace(tore=tore, length_conversion_factor=lcf),
                                             tot_charge=charge, mult=np.ones(nmol, dtype=np.int64))
-                selfns = types.SimpleNamespace(outercutoff=cutoff, uhf=False, hipnn_automatic_doublet=False, elements=None)
+                selfns = _instance(bs, "Parser", outercutoff=cutoff, uhf=False, hipnn_automatic_doublet=False, elements=None)
                 try:
                     res = I.call_function(bs, f, [selfns, mol, "AM1"], {"return_mask_l": True})
                 except Raised as e:
@@ -1055,7 +1061,7 @@ def interpreted_parser_guards(repo):
         coords = np.array([[[sp.Integer(m * 7 + p), sp.Integer(p * p), sp.Integer(0)] for p in range(ms)] for m in range(nmol)], dtype=object)
         mol = types.SimpleNamespace(species=species, coordinates=coords, const=types.SimpleNamespace(tore=tore, length_conversion_factor=sp.Rational(189, 100)),
                                     tot_charge=np.array(charge, dtype=np.int64), mult=np.array(mult if mult is not None else [1] * nmol, dtype=np.int64))
-        selfns = types.SimpleNamespace(outercutoff=sp.Integer(10) ** 10, uhf=uhf, hipnn_automatic_doublet=auto, elements=None)
+        selfns = _instance(bs, "Parser", outercutoff=sp.Integer(10) ** 10, uhf=uhf, hipnn_automatic_doublet=auto, elements=None)
         try:
             NpSym(repo).call_function(bs, f, [selfns, mol, "AM1"])
             return False
@@ -1097,7 +1103,7 @@ def interpreted_parser_guards(repo):
         mol = types.SimpleNamespace(species=species, coordinates=np.array([[[sp.Integer(p), sp.Integer(p * p), sp.Integer(0)] for p in range(species.shape[1])]], dtype=object),
                                     const=types.SimpleNamespace(tore=tore, length_conversion_factor=sp.Rational(189, 100)), tot_charge=np.array([charge], dtype=np.int64),
                                     mult=np.array([mult], dtype=np.int64))
-        selfns = types.SimpleNamespace(outercutoff=sp.Integer(10) ** 10, uhf=uhf, hipnn_automatic_doublet=False, elements=None)
+        selfns = _instance(bs, "Parser", outercutoff=sp.Integer(10) ** 10, uhf=uhf, hipnn_automatic_doublet=False, elements=None)
         try:
             NpSym(repo).call_function(bs, f, [selfns, mol, "AM1"], {"do_large_tensors": False})
             return False
@@ -1707,3 +1713,172 @@ def interpreted_core_parameters(repo):
                        f"{'alpha only' if ng == 0 else f'alpha and {ng} Gaussians (K, L, M of shape (atoms, {ng}), Gaussian1..{ng} in this order)'}")
             out.append((rel, qual, c.lineno, method, ok, msg))
     return out
+
+
+# ------------------------------------------------------------------------------------------------------------------------------------------------
+# C17-R3: energy-conserving velocity adjustment of an accepted hop, frustrated hops untouched -- decided by value at exact points
+# ------------------------------------------------------------------------------------------------------------------------------------------------
+def interpreted_hop_rescale(repo, n_points=10, seed=5):
+    """SurfaceHoppingDynamics._rescale_velocity_along_nac is interpreted (sa.npsym) for a batch of two trajectories (3 atoms, the last one padding with zero inverse mass)
+    at exact rational points: downward hops (dE < 0), small upward hops that are allowed, large upward hops that are frustrated, both state orders (d_ji = -d_ij) and both
+    signs of v.d.  Accepted: the routine returns True, v' - v = alpha d / m with one scalar alpha on the hopping trajectory only, KES * dE_kin + dE = 0 exactly, alpha is the
+    root of smaller magnitude.  Frustrated (discriminant <= 0): returns False and no velocity changes.  Returns (ok, message, facts)."""
+    import random
+    import numpy as np
+    import sympy as sp
+    from .loader import AnalysisError
+    from .npsym import Instance, NpSym, Raised
+    nad = repo.mod("seqm/NonadiabaticDynamics.py")
+    f = nad.func("SurfaceHoppingDynamics._rescale_velocity_along_nac")
+    R = sp.Rational
+    rng = random.Random(seed)
+    try:
+        KES = sp.nsimplify(NpSym(repo).global_value(nad, "CONSTANTS").KINETIC_ENERGY_SCALE)
+    except (AnalysisError, AttributeError) as e:
+        raise AnalysisError(f"CONSTANTS.KINETIC_ENERGY_SCALE not resolvable from {nad.rel}: {e}")
+    facts = {"accepted": 0, "frustrated": 0}
+    kinds = ["down", "up-small", "up-large"]
+    for k in range(n_points * 3):
+        kind = kinds[k % 3]
+        nmol, A = 2, 3
+        V = np.array([[[R(rng.randint(-30, 30), 17) or R(1, 17) for _ in range(3)] for _ in range(A)] for _ in range(nmol)], dtype=object)
+        D = np.array([[[R(rng.randint(-20, 20), 13) or R(2, 13) for _ in range(3)] for _ in range(A)] for _ in range(nmol)], dtype=object)
+        MI = np.array([[[R(rng.randint(1, 12), 7)] if a < A - 1 else [sp.Integer(0)] for a in range(A)] for _ in range(nmol)], dtype=object)
+        V[:, A - 1, :] = sp.Integer(0)          # padding atoms are at rest (C13-R4); their coupling-vector entries are arbitrary
+        mol_index = k % nmol
+        i_state, j_state = ((0, 1) if kind == "down" else (1, 0)) if (k // 3) % 2 == 0 else ((2, 1) if kind == "down" else (1, 2))
+        lo, hi = min(i_state, j_state), max(i_state, j_state)
+        sign = 1 if i_state < j_state else -1
+        d_eff = sign * D[mol_index]
+        vd = sum(V[mol_index, a, c] * d_eff[a, c] for a in range(A) for c in range(3))
+        d2m = sum(MI[mol_index, a, 0] * d_eff[a, c] ** 2 for a in range(A) for c in range(3))
+        # the allowed upward gap is below vd^2 KES / (2 d2m)
+        bound = vd ** 2 * KES / (2 * d2m)
+        dE = -R(rng.randint(1, 9), 11) if kind == "down" else (bound * R(rng.randint(1, 8), 10) if kind == "up-small" else bound * R(rng.randint(11, 30), 10) + R(1, 100))
+        mol = types.SimpleNamespace(velocities=V.copy(), mass_inverse=MI.copy())
+        I = NpSym(repo)
+        selfobj = Instance(nad, "SurfaceHoppingDynamics")
+        try:
+            ret = I.call_function(nad, f, [selfobj, {(lo, hi): D.copy()}, i_state, j_state, mol, dE, mol_index])
+        except Raised as e:
+            return False, f"the velocity adjustment raises for a regular hop request ({kind}): {str(e)[:100]}", facts
+        Vn = np.asarray(mol.velocities)
+        other = 1 - mol_index
+        if any(sp.simplify(Vn[other, a, c] - V[other, a, c]) != 0 for a in range(A) for c in range(3)):
+            return False, f"a hop of trajectory {mol_index} changes the velocities of trajectory {other}", facts
+        dV = [[sp.simplify(Vn[mol_index, a, c] - V[mol_index, a, c]) for c in range(3)] for a in range(A)]
+        moved = any(x != 0 for row in dV for x in row)
+        frustrated = (vd ** 2 - 2 * (dE / KES) * d2m) <= 0
+        if frustrated:
+            facts["frustrated"] += 1
+            if moved or bool(ret):
+                return False, (f"a frustrated hop (gap {sp.N(dE, 6)} above the kinetic energy available along the coupling vector) "
+                               f"{'changes the velocities' if moved else 'is reported as accepted'}: it must leave state and velocities untouched"), facts
+            continue
+        facts["accepted"] += 1
+        if not bool(ret) or not moved:
+            return False, f"an energetically allowed hop ({kind}, dE = {sp.N(dE, 6)}) is rejected / leaves the velocities unchanged", facts
+        if any(x != 0 for x in dV[A - 1]):
+            return False, "the velocity adjustment moves a padding atom (zero inverse mass)", facts
+        alphas = [sp.simplify(dV[a][c] / (d_eff[a, c] * MI[mol_index, a, 0])) for a in range(A - 1) for c in range(3)]
+        if any(sp.simplify(x - alphas[0]) != 0 for x in alphas):
+            return False, "v' - v is not one scalar multiple of d / m on the hopping trajectory (the adjustment is not along the coupling vector)", facts
+        al = alphas[0]
+        # kinetic energy with masses 1/MI (padding excluded)
+        dK = sum((Vn[mol_index, a, c] ** 2 - V[mol_index, a, c] ** 2) / MI[mol_index, a, 0] for a in range(A - 1) for c in range(3)) / 2
+        resid = sp.simplify(KES * dK + dE)
+        if resid != 0:
+            return False, f"kinetic energy after the hop is off by {sp.N(resid, 8)} (KES * dE_kin + dE should vanish): total energy is not conserved across an accepted hop ({kind})", facts
+        other_root = sp.simplify(-2 * vd / d2m - al)
+        if sp.N(sp.Abs(al) - sp.Abs(other_root), 30) > 0:
+            return False, f"the adjustment uses the root of larger magnitude (alpha = {sp.N(al, 8)}, the other root is {sp.N(other_root, 8)})", facts
+    return True, "", facts
+
+
+# ------------------------------------------------------------------------------------------------------------------------------------------------
+# C17-R3/R4: bookkeeping of the hop loop (SurfaceHoppingDynamics._after_electronic_update), decided by value on a batch of four trajectories
+# ------------------------------------------------------------------------------------------------------------------------------------------------
+def interpreted_hop_bookkeeping(repo):
+    """_after_electronic_update is interpreted (sa.npsym) with stand-ins for the hop draw (preset targets), the coupling-vector evaluation and the velocity adjustment
+    (records its arguments, returns a preset verdict per trajectory).  Batch: four trajectories, three states, active = [0, 1, 2, 1], proposed hops [1, -, 0, 2], the fourth
+    trajectory is in its post-hop hold-off; the hop of trajectory 0 is accepted, the hop of trajectory 2 is frustrated.  Checked: the adjustment is requested exactly once for
+    each hopping trajectory with (from = its active state, to = its target, dE = E[its row, to] - E[its row, from], its own index); only an accepted hop changes the active
+    state and starts the hold-off; a frustrated hop changes nothing of the state; untouched trajectories keep state, hold-off and amplitudes; the reported potential follows the
+    new active state; forces are recomputed iff some hop was accepted.  Returns (ok, message, facts)."""
+    import numpy as np
+    import sympy as sp
+    from .loader import AnalysisError
+    from .npsym import Instance, NpSym, Raised
+    nad = repo.mod("seqm/NonadiabaticDynamics.py")
+    f = nad.func("SurfaceHoppingDynamics._after_electronic_update")
+    R = sp.Rational
+    facts = {"scenarios": 0}
+    nmol, ns = 4, 3
+    E = np.array([[R(10 * m + 3 * s * s + s, 7) for s in range(ns)] for m in range(nmol)], dtype=object)
+    for decohere in (True, False):
+        for verdicts in ({0: True, 2: False}, {0: False, 2: False}, {0: True, 2: True}):
+            active0 = [0, 1, 2, 1]
+            targets = [1, -1, 0, 2]
+            hold0 = [0, 0, 0, 1]
+            calls, recomputed = [], []
+            amp = np.array([[[R(100 * m + 10 * s + c + 1, 1000) for c in range(3)] for s in range(ns)] for m in range(nmol)], dtype=object)
+            amp0 = amp.copy()
+            etot0 = np.array([R(-500 - m, 3) for m in range(nmol)], dtype=object)
+
+            def rescale(fr, nac, i_state, j_state, molecule, dE, mol_index=None, **k):
+                calls.append((int(i_state), int(j_state), sp.nsimplify(dE), int(mol_index) if mol_index is not None else None))
+                return verdicts.get(int(mol_index) if mol_index is not None else -1, False)
+            mol = types.SimpleNamespace(coordinates=np.zeros((nmol, 2, 3), dtype=object), Etot=etot0.copy(), force=np.full((nmol, 2, 3), sp.Integer(1), dtype=object),
+                                        mass_inverse=np.full((nmol, 2, 1), sp.Integer(1), dtype=object), acc=None)
+            selfobj = Instance(nad, "SurfaceHoppingDynamics", _active_states=np.array(active0, dtype=np.int64), _trivial_crossing_mask=None,
+                               post_hop_holdoff=np.array(hold0, dtype=np.int64), prev_state=np.full((nmol,), -1, dtype=np.int64), _amp_phase=amp, hop_log=[],
+                               step_offset=0, _decohere_on_hop=decohere, _current_potential=None, _arange_cache={},
+                               _attempt_hop=lambda fr: np.array(targets, dtype=np.int64),
+                               _compute_NACR_for_hop=lambda fr, molecule, pairs: {"pairs": list(pairs)},
+                               _rescale_velocity_along_nac=rescale,
+                               _recompute_active_force=lambda fr, molecule: recomputed.append(1))
+            I = NpSym(repo)
+            I.construct_instances = True
+            try:
+                I.call_function(nad, f, [selfobj, mol, E.copy()], {"step": 6})
+            except Raised as e:
+                return False, f"the hop bookkeeping raises on a regular batch: {str(e)[:120]}", facts
+            facts["scenarios"] += 1
+            hopping = [0, 2]        # trajectory 3 is in its hold-off, trajectory 1 has no proposal
+            want_calls = sorted((active0[m], targets[m], sp.nsimplify(E[m, targets[m]] - E[m, active0[m]]), m) for m in hopping)
+            if sorted(calls, key=lambda c: (c[3] if c[3] is not None else -1)) != sorted(want_calls, key=lambda c: c[3]):
+                got = [(c[0], c[1], str(c[2]), c[3]) for c in calls]
+                exp = [(c[0], c[1], str(c[2]), c[3]) for c in want_calls]
+                return False, (f"the velocity adjustment is requested with (from, to, dE, trajectory) = {got}; the hopping trajectories need {exp} "
+                               f"(each with its own states, its own energy gap and its own index; a trajectory in its hold-off does not hop)"), facts
+            act = [int(x) for x in np.asarray(selfobj._active_states)]
+            want_act = [targets[m] if (m in hopping and verdicts.get(m)) else active0[m] for m in range(nmol)]
+            if act != want_act:
+                return False, f"active states after the hop step are {act}, expected {want_act} (only an accepted hop switches the surface; verdicts {verdicts})", facts
+            hold = [int(x) for x in np.asarray(selfobj.post_hop_holdoff)]
+            want_hold = [2 if (m in hopping and verdicts.get(m)) else hold0[m] for m in range(nmol)]
+            if hold != want_hold:
+                return False, f"hold-off counters after the hop step are {hold}, expected {want_hold}", facts
+            for m in range(nmol):
+                row = np.asarray(selfobj._amp_phase)[m]
+                if decohere and m in hopping:
+                    on = want_act[m]
+                    exp_row = np.zeros((ns, 3), dtype=object)
+                    exp_row[on, 0] = 1
+                    if any(sp.simplify(row[s, c] - exp_row[s, c]) != 0 for s in range(ns) for c in range(3)):
+                        return False, f"decoherence on hop: the amplitudes of trajectory {m} are not collapsed onto the surface it continues on (state {on})", facts
+                elif any(sp.simplify(row[s, c] - amp0[m, s, c]) != 0 for s in range(ns) for c in range(3)):
+                    return False, f"the amplitudes of trajectory {m} change although it {'does not hop' if m not in hopping else 'hops without decoherence'}", facts
+            log = [(int(getattr(ev, "mol_index")), int(getattr(ev, "from_state")), int(getattr(ev, "to_state")), bool(getattr(ev, "accepted")), int(getattr(ev, "step"))) for ev in selfobj.hop_log]
+            want_log = sorted((m, active0[m], targets[m], bool(verdicts.get(m)), 7) for m in hopping)
+            if sorted(log) != want_log:
+                return False, f"the hop log records {sorted(log)} (trajectory, from, to, accepted, step), expected {want_log}", facts
+            if bool(recomputed) != any(verdicts.get(m) for m in hopping):
+                return False, ("forces are not recomputed after an accepted hop (the trajectory continues with the old surface's force)" if not recomputed
+                               else "forces are recomputed although no hop was accepted"), facts
+            et = np.asarray(mol.Etot).reshape(-1)
+            for m in range(nmol):
+                exp = etot0[m] - E[m, active0[m]] + E[m, want_act[m]]
+                if sp.simplify(et[m] - exp) != 0:
+                    return False, f"the potential energy reported for trajectory {m} after the hop step is not that of its active surface (E_total - E[old] + E[new])", facts
+    return True, "", facts
